@@ -158,7 +158,7 @@ structure Store where
   dead : List Nat := []         -- agents that have died (removed from the model, no reference left in the program)
 deriving Repr, DecidableEq, Inhabited
 
-inductive Err where | attr | key | index | value
+inductive Err where | attr | key | index | value | type
 deriving Repr, DecidableEq
 
 /-- filter functions of the harness (total: a missing attribute reads as 0) -/
@@ -188,6 +188,12 @@ def Key.eval (a : Agent) : Key → Option Int
   | .negAttr k => (a.attr k).map (- ·)
   | .ty => some a.ty
   | .uid => some (a.id + 1)
+
+/-- the keys a program can write with the key functions above: `a.k % 0` raises `ZeroDivisionError` in Python, an arm the
+    model does not have — the driver refuses `mod:<k>:0` (`bad-op`) and the theorems about raising keys assume `WellFormed` -/
+def Key.WellFormed : Key → Prop
+  | .modAttr _ m => 0 < m
+  | _ => True
 
 inductive AtMost where | inf | count (k : Nat)
 deriving Repr, DecidableEq
@@ -278,6 +284,92 @@ def agg (st : Store) (s : Nat) (k : Nat) (f : AggFn) : Except Err Int :=
     | .min, v :: rest => .ok (rest.foldl min v)
     | .max, v :: rest => .ok (rest.foldl max v)
 
+/-! ### `getattr(agent, name)` — what a method *name* denotes on an agent
+
+`AgentSet.map("name", d)` evaluates `getattr(agent, name)(d)` for every member.  The lookup is Python's (no data descriptors
+among the harness' names): the instance `__dict__` first — whatever is stored there is returned as it is, never bound —, then
+the class along its MRO, whose entry answers through its `__get__`: a plain function binds the *agent*, a `staticmethod`
+nothing, a `classmethod` the agent's *exact class*; any other callable object is returned as it is. -/
+
+/-- the bodies of the harness' callables -/
+inductive Body where
+  | plusAttr (k : Nat)        -- `def plus<k>(self, d): return self.<k> + d`
+  | twice                     -- `def base(d): return 2 * d`
+  | rankPlus                  -- `def rank(cls, d): return TY[cls] + d`
+  | decoy                     -- `def own<k>(self, d): return -999` (class level)
+  | triple (owner k : Nat)    -- `_Own(owner, <k>)`: `__call__(d) = 3 * owner.<k> + d` (a callable object that knows its owner)
+deriving Repr, DecidableEq
+
+/-- an entry of a `__dict__` -/
+inductive Entry where
+  | function (b : Body)
+  | staticmethod (b : Body)
+  | classmethod (b : Body)
+  | object (b : Body)         -- a callable that is not a descriptor
+deriving Repr, DecidableEq
+
+/-- what the callable that the lookup produced passes *before* the caller's arguments -/
+inductive Recv where
+  | nothing
+  | agent (i : Nat)
+  | cls (ty : Nat)
+deriving Repr, DecidableEq
+
+/-- `getattr(agent, name)` given the entry of the agent's own `__dict__` and the first entry along the MRO of its class;
+    `none` = `AttributeError` -/
+def resolve (inst cls : Option Entry) (i ty : Nat) : Option (Body × Recv) :=
+  match inst with
+  | some (.function b) | some (.staticmethod b) | some (.classmethod b) | some (.object b) => some (b, .nothing)
+  | none =>
+    match cls with
+    | some (.function b) => some (b, .agent i)
+    | some (.staticmethod b) => some (b, .nothing)
+    | some (.classmethod b) => some (b, .cls ty)
+    | some (.object b) => some (b, .nothing)
+    | none => none
+
+/-- calling a body with what it was bound to and the one argument `d`; a body that gets one positional argument too few or
+    too many raises `TypeError` -/
+def Body.call (st : Store) : Body → Recv → Int → Except Err Int
+  | .plusAttr k, .agent i, d => match (st.agent i).attr k with | some v => .ok (v + d) | none => .error .attr
+  | .twice, .nothing, d => .ok (2 * d)
+  | .rankPlus, .cls ty, d => .ok ((ty : Int) + d)
+  | .decoy, .agent _, _ => .ok (-999)
+  | .triple o k, .nothing, d => match (st.agent o).attr k with | some v => .ok (3 * v + d) | none => .error .attr
+  | _, _, _ => .error .type
+
+/-- the method names `map` is called with -/
+inductive Name where
+  | plus (k : Nat) | base | rank | own (k : Nat) | nosuch
+deriving Repr, DecidableEq
+
+/-- the harness' classes (`T0 ← T1 ← T2` and `T3`): every one of them finds the same entries along its MRO -/
+def classEntry (_ty : Nat) : Name → Option Entry
+  | .plus k => some (.function (.plusAttr k))
+  | .base => some (.staticmethod .twice)
+  | .rank => some (.classmethod .rankPlus)
+  | .own _ => some (.function .decoy)
+  | .nosuch => none
+
+/-- the harness' instances: `self.own<k> = _Own(self, <k>)` in `__init__`, nothing else callable -/
+def instEntry (i : Nat) : Name → Option Entry
+  | .own k => some (.object (.triple i k))
+  | _ => none
+
+/-- `getattr(agent_i, name)(d)` -/
+def callByName (st : Store) (name : Name) (d : Int) (i : Nat) : Except Err Int :=
+  match resolve (instEntry i name) (classEntry (st.agent i).ty name) i (st.agent i).ty with
+  | none => .error .attr
+  | some (b, r) => b.call st r d
+
+/-- a list comprehension whose element expression may raise: the first exception leaves it -/
+def mapE (f : Nat → Except Err Int) : List Nat → Except Err (List Int)
+  | [] => .ok []
+  | i :: rest =>
+    match f i with
+    | .error e => .error e
+    | .ok v => match mapE f rest with | .error e => .error e | .ok vs => .ok (v :: vs)
+
 inductive MapFn where
   | dbl (k : Nat)              -- callable `lambda a: a.k * 2 + 1`
   | plus (k : Nat) (d : Int)   -- method name "plus<k>" with argument d: returns `self.k + d`
@@ -288,19 +380,16 @@ inductive MapFn where
                                -- same name): `agent.own<k>(d)` = `3 * agent.k + d`
 deriving Repr, DecidableEq
 
-/-- `AgentSet.map(method, *args)` (no churn here; C04 covers mutation during the call) -/
+/-- `AgentSet.map(method, *args)` (no churn here; C04 covers mutation during the call): a callable is applied to every member,
+    a *name* is looked up on every member (`callByName`) -/
 def map (st : Store) (s : Nat) : MapFn → Except Err (List Int)
   | .dbl k => match (st.get s).mapM (fun i => (st.agent i).attr k) with
     | none => .error .attr | some vs => .ok (vs.map (· * 2 + 1))
-  | .plus k d => match (st.get s).mapM (fun i => (st.agent i).attr k) with
-    | none => .error .attr | some vs => .ok (vs.map (· + d))
-  | .nosuch => if st.get s = [] then .ok [] else .error .attr
-  -- `getattr(agent, name)(*args)` for every member: whatever the attribute lookup on the *agent* yields is called with
-  -- the arguments alone (a staticmethod gets no agent, a classmethod the agent's class, an instance attribute wins)
-  | .stat d => .ok ((st.get s).map fun _ => 2 * d)
-  | .cls d => .ok ((st.get s).map fun i => ((st.agent i).ty : Int) + d)
-  | .own k d => match (st.get s).mapM (fun i => (st.agent i).attr k) with
-    | none => .error .attr | some vs => .ok (vs.map (3 * · + d))
+  | .plus k d => mapE (callByName st (.plus k) d) (st.get s)
+  | .nosuch => mapE (callByName st .nosuch 0) (st.get s)
+  | .stat d => mapE (callByName st .base d) (st.get s)
+  | .cls d => mapE (callByName st .rank d) (st.get s)
+  | .own k d => mapE (callByName st (.own k) d) (st.get s)
 
 /-- `agentset[i]` -/
 def item (st : Store) (s : Nat) (i : Int) : Except Err Nat :=
